@@ -324,6 +324,7 @@ func (r *Router) findOrCreateService(name string, options ServiceOptions, target
 }
 
 func (r *Router) saveStateSnapshot() error {
+	verifPoint("snapshot.begin", r)
 	// Snapshots are serialised, and each one lists the services only once it
 	// holds the lock, so the snapshot written last is also the most recent one.
 	r.snapshotLock.Lock()
@@ -363,6 +364,7 @@ func (r *Router) saveStateSnapshot() error {
 		return err
 	}
 
+	verifPoint("snapshot.renamed", r)
 	slog.Debug("Saved state", "path", r.statePath)
 	return nil
 }
